@@ -32,7 +32,7 @@ class Pool:
             env.update({"PYTHONHASHSEED": str(kernel.HASHSEEDS[k]), "OMP_NUM_THREADS": "1", "OPENBLAS_NUM_THREADS": "1",
                         "MKL_NUM_THREADS": "1", "MPLBACKEND": "Agg", "PYTHONDONTWRITEBYTECODE": "1",
                         "PYTHONPATH": REPO + ":" + VERIF, "VSIM_MASTER": str(os.getpid()), "VSIM_REPO": REPO,
-                        "VSIM_RUN_TIMEOUT": str(run_timeout), "PYTHONWARNINGS": "ignore", "MPLCONFIGDIR": "/dev/shm/vsim.mpl"})
+                        "VSIM_RUN_TIMEOUT": str(run_timeout), "PYTHONWARNINGS": "ignore", "MPLCONFIGDIR": os.path.join("/dev/shm" if os.access("/dev/shm", os.W_OK) else __import__("tempfile").gettempdir(), "vsim.mpl")})
             p = subprocess.Popen([PY, "-m", "vsim.worker", prop, str(w)], stdin=subprocess.PIPE, stdout=subprocess.PIPE,
                                  stderr=self.errlog, env=env, cwd=VERIF, text=True, bufsize=1)
             self.procs.append(p)
@@ -79,7 +79,7 @@ class Pool:
             except Exception:
                 p.kill()
         self.errlog.close()
-        for d in os.listdir("/dev/shm"):
+        for d in (os.listdir("/dev/shm") if os.path.isdir("/dev/shm") else []):
             if d.startswith("vsim.%d." % os.getpid()):
                 shutil.rmtree(os.path.join("/dev/shm", d), ignore_errors=True)
 
